@@ -211,7 +211,8 @@ def families(tier, seed):
             for n in (((4, 3) if an == '+z' else (4, 5) if an == '-x' else (4,)) if tier == 'quick' else (3, 4, 5, 6, 8)):
                 fams.append(Family('%s/%s/n%d' % (which.lower(), an, n), fam_cyl_cone, (which, an, n, 2 if an != 'xyz' else -1), must_reach=('ok',),
                                    budget_s=150 if tier == 'quick' else 1200))
-    for n1, n2 in ([(3, 2), (4, 2)] if tier == 'quick' else [(3, 2), (4, 2), (6, 2), (4, 3), (5, 3)]):
+    # n2 = 4 does not divide 90 (degrees): a latitude step computed in whole degrees is wrong only there
+    for n1, n2 in ([(3, 2), (4, 2), (3, 4)] if tier == 'quick' else [(3, 2), (4, 2), (6, 2), (4, 3), (5, 3), (3, 4), (3, 5)]):
         fams.append(Family('sphere/n1=%d/n2=%d' % (n1, n2), fam_sphere, (n1, n2), must_reach=('ok',), budget_s=200 if tier == 'quick' else 1500))
     for fr in (['axis', 'planar'] if tier == 'quick' else ['axis', 'planar', 'oblique', 'pyth3', 'shear']):
         for which in ('Parallelogram', 'Parallelepiped'):
